@@ -486,15 +486,8 @@ func coqCase(h hist, res []opRes) (string, bool) {
 		if o.Kind == "commit" {
 			ops = append(ops, "OpCommit")
 		} else {
-			es := r.entries
-			if k == kStorage && hasAlias(h) {
-				es, _ = orderByOutcome(k, es, final) // applied at the commit: judged by the final settings
-			} else if hasAlias(h) || costCutsLoop(k, es) {
-				var ok bool
-				if es, ok = orderByOutcome(k, es, r); !ok {
-					return "", false
-				}
-			}
+			es := r.entries // the model visits them in sorted key order, like config.SortedKeys
+			_ = final
 			ents := make([]string, len(es))
 			for j, e := range es {
 				ents[j] = coqEntry(k, e)
